@@ -62,3 +62,31 @@ Print Assumptions C11_workers_exit.
 Print Assumptions C11_all_or_nothing.
 Print Assumptions C11_uncancelled_gives_mesh.
 Print Assumptions C11_old_code_refuted.
+
+(* THE PHASE SKELETON IS THE SOURCE'S.  translate/gen_render.py re-reads Mesh::render (mesh.cpp) on every run: per meshing
+   algorithm the order of build / check-after-build (`settings.cancel.load() || t.get() == nullptr` -> return nullptr) /
+   index assignment / dual walk / final check (`if (settings.cancel.load()) out.reset();`) / return, and every occurrence of
+   `cancel` and of `return` in the function must be one of these (Gen/RenderSkeleton_gen.v).  Interpreted on a run
+   (Render/CancelSkel.v) each skeleton IS the model's repaired render, so it returns nothing or a complete mesh; the same
+   skeleton without the final check - the code before the repair 7279a79 - returns a partial mesh *)
+From LF Require Gen.RenderSkeleton_gen Render.CancelSkel.
+Theorem C11_render_skeleton_all_or_nothing :
+  forall alg evs, In (alg, evs) RenderSkeleton_gen.render_skeleton_gen ->
+  forall r, run_ok r -> exists x, CancelSkel.interp evs r = Some x /\ all_or_nothing x.
+Proof. exact CancelSkel.skeleton_all_or_nothing. Qed.
+Theorem C11_render_skeleton_is_the_model :
+  forall alg evs, In (alg, evs) RenderSkeleton_gen.render_skeleton_gen ->
+  forall r, CancelSkel.interp evs r = Some (render_new (if CancelSkel.has_assign evs then r else CancelSkel.no_assign r)).
+Proof. exact CancelSkel.skeleton_is_render_new. Qed.
+(* [skeleton_shape]: the three algorithms, each with build, check, walk, final check, and return last *)
+Theorem C11_render_skeleton_shape : CancelSkel.skeleton_shape.
+Proof. exact CancelSkel.skeleton_shape_ok. Qed.
+Theorem C11_final_check_needed :
+  exists r, run_ok r /\
+    CancelSkel.interp (RenderSkeleton_gen.EvBuild :: RenderSkeleton_gen.EvCheckAfterBuild :: RenderSkeleton_gen.EvWalk
+                       :: RenderSkeleton_gen.EvReturn :: nil) r = Some (MeshOf Complete Partial).
+Proof. exact CancelSkel.skeleton_without_final_check_refuted. Qed.
+Print Assumptions C11_render_skeleton_all_or_nothing.
+Print Assumptions C11_render_skeleton_is_the_model.
+Print Assumptions C11_render_skeleton_shape.
+Print Assumptions C11_final_check_needed.
